@@ -46,7 +46,7 @@ def register(db):
         kwargs={"known": {}, "open": False},
         ensures=[("never-returns", "False")],
         raises={"ConverterError": True},
-        properties=["C15"],
+        properties=P + ["C15"],
     ))
     # ------------------------------------------------------------------ int
     db.add(Contract(
@@ -74,8 +74,8 @@ def register(db):
         f"{CONV}:IntConverter.deserialize", variant="any-str",
         params={"self": f"obj:{CONV}:IntConverter", "value": "str"},
         kwargs={"known": {}, "open": False},
-        ensures=[],
-        raises={"ConverterError": True}, returns="int", properties=["C15"],
+        ensures=[("an-int-is-returned-or-it-fails", "result is not None")],
+        raises={"ConverterError": True}, returns="int", properties=P + ["C15"],
     ))
     db.add(Contract(
         f"{CONV}:IntConverter.deserialize", variant="none",
